@@ -401,6 +401,12 @@ func serveGuards(c *core.Ctx) {
 			if call, ok := astx.Unparen(ie.X).(*ast.CallExpr); ok && isIfaceMethodCall(info, call, "protocolHandler", "ContentTypes") {
 				lookup = ie
 			}
+			// or the index the constructors built from those same maps (accept-post-same-source checks the builder)
+			if f := astx.FieldOf(info, ie.X); f != nil {
+				if mt, isMap := f.Type().Underlying().(*types.Map); isMap && astx.NamedOf(mt.Elem()) != nil && astx.NamedOf(mt.Elem()).Obj().Name() == "protocolHandler" {
+					lookup = ie
+				}
+			}
 		}
 		return true
 	})
